@@ -392,7 +392,7 @@ func c16Run(c *lib.Ctx) {
 	alpha := histAlphabet()
 	depth := 6
 	if c.Thorough() {
-		depth = 7
+		depth = 8
 	}
 	n := int64(len(alpha))
 	idx := int64(0)
@@ -500,7 +500,7 @@ func c16Run(c *lib.Ctx) {
 func init() {
 	lib.Register(&lib.Check{
 		ID: "C16", Level: "model_checking",
-		Rule:      "E1: every operation sequence of length 6 (thorough 7) over {add \"x\"|\"X \"|\"z\" (the second differs from the first only in case and a trailing blank: a different query), save, load(same configured max), load(other configured max), clear} for configured max 1,2,3 on the real SearchHistory under a virtual clock (1 ms per reading), entries and the recent/top/stats/pattern views compared with a reference log after every step; E2: every history file made of <=3 fields from a 25-field JSON alphabet (quick: all singles and pairs, a third of the triples) plus specials and every byte prefix of a valid file: Load, record n1,n1,n2,n3, views, Save, re-Load; distinct_nontrivial = distinct observation strings (per-step sizes for sequences; load outcome/size/max for files), per worker, summed",
+		Rule:      "E1: every operation sequence of length 6 (thorough 8) over {add \"x\"|\"X \"|\"z\" (the second differs from the first only in case and a trailing blank: a different query), save, load(same configured max), load(other configured max), clear} for configured max 1,2,3 on the real SearchHistory under a virtual clock (1 ms per reading), entries and the recent/top/stats/pattern views compared with a reference log after every step; E2: every history file made of <=3 fields from a 25-field JSON alphabet (quick: all singles and pairs, a third of the triples) plus specials and every byte prefix of a valid file: Load, record n1,n1,n2,n3, views, Save, re-Load; distinct_nontrivial = distinct observation strings (per-step sizes for sequences; load outcome/size/max for files), per worker, summed",
 		Assume:    []string{"clock owned through vtime", "files on tmpfs"},
 		QuickSecs: 90, ThorSecs: 900,
 		Run: c16Run,
